@@ -28,12 +28,16 @@ type lockWalker struct {
 type lockState struct {
 	held     map[string]string // elem -> "W" | "R"
 	deferred map[string]bool
+	released map[string]bool // elem -> its lock was held and released earlier on this path
 }
 
 func (s lockState) clone() lockState {
-	n := lockState{map[string]string{}, map[string]bool{}}
+	n := lockState{map[string]string{}, map[string]bool{}, map[string]bool{}}
 	for k, v := range s.held {
 		n.held[k] = v
+	}
+	for k, v := range s.released {
+		n.released[k] = v
 	}
 	for k, v := range s.deferred {
 		n.deferred[k] = v
@@ -262,6 +266,10 @@ func (w *lockWalker) stmt(s ast.Stmt, st lockState) (lockState, bool) {
 				for other := range st.held {
 					w.order[[2]string{other, el}] = true
 				}
+				if st.released[el] {
+					// R05.7: what the second critical section sees need not be the state the first one looked at
+					w.report("R05.7", fmt.Sprintf("%s acquires the lock of %s again after having released it: the two critical sections are not atomic together, a reset or a call that lands between them makes the function combine two different states of the call log", w.fn, el), x.Pos())
+				}
 				st = st.clone()
 				st.held[el] = map[string]string{"Lock": "W", "RLock": "R"}[op]
 			default:
@@ -271,6 +279,7 @@ func (w *lockWalker) stmt(s ast.Stmt, st lockState) (lockState, bool) {
 				}
 				st = st.clone()
 				delete(st.held, el)
+				st.released[el] = true
 			}
 			return st, false
 		}
@@ -381,7 +390,7 @@ func (w *lockWalker) stmt(s ast.Stmt, st lockState) (lockState, bool) {
 		}
 		return st, false
 	case *ast.GoStmt:
-		w.checkAccesses(x.Call, nil, lockState{map[string]string{}, map[string]bool{}})
+		w.checkAccesses(x.Call, nil, lockState{map[string]string{}, map[string]bool{}, map[string]bool{}})
 		return st, false
 	case *ast.LabeledStmt:
 		return w.stmt(x.Stmt, st)
@@ -400,7 +409,7 @@ func (w *lockWalker) stmt(s ast.Stmt, st lockState) (lockState, bool) {
 
 // walkFunc checks one method body and every function literal inside it.
 func (w *lockWalker) walkFunc(body *ast.BlockStmt) {
-	empty := lockState{map[string]string{}, map[string]bool{}}
+	empty := lockState{map[string]string{}, map[string]bool{}, map[string]bool{}}
 	st, term := w.stmts(body.List, empty)
 	if !term {
 		w.exit(st, "function end", body.Rbrace)
@@ -451,6 +460,7 @@ R05.1 (matryer) every read/write of a field of the mock struct other than the Fu
 R05.2 (matryer) the mock struct has exactly one sync.RWMutex/Mutex field per method of the interface;
 R05.4 (testify) no function literal in generated code writes a variable declared outside it (testify runs the Run closure outside its mutex), Called(xs...) never spreads a parameter (the recorded call would share the caller's array), the template declares no package-level variables, the mock struct holds nothing but the embedded mock.Mock, the expecter nothing but a *mock.Mock, call structs nothing but *mock.Call, and no generated method stores through its receiver or refers to package-level variables;
 R05.6 (matryer) the call log is only ever assigned append(itself, ...) or nil, never re-sliced or stored into, so a snapshot handed out by the Calls accessor is never overwritten by a later call;
+R05.7 (matryer) no generated function acquires a method's lock again after having released it: what it reads or writes under the lock is one atomic step (a Calls accessor that measures the log in one critical section and copies it in a second one returns records of calls nobody made when a reset lands in between - no data race, so the race detector is silent);
 R05.5 (matryer) no user-supplied Func field and no other mock method is called while a lock is held (sync locks are not re-entrant).`
 	c.NotDecided = "the interleavings themselves, the Go memory model and sync/testify internals (assumed), scheduling; shapes beyond the tier bound."
 	c.Assumptions = []string{"sync.RWMutex/Mutex provide mutual exclusion and happens-before as documented", "testify's mock.Mock synchronises its own state", "the accessor table of engine T (checked against the Go code by C14) describes what the generator passes to the template"}
@@ -459,6 +469,7 @@ R05.5 (matryer) no user-supplied Func field and no other mock method is called w
 	c.Rule("R05.4", 300, "testify adds no shared state")
 	c.Rule("R05.5", 500, "no foreign call under a lock")
 	c.Rule("R05.6", 500, "call log only grows by append-to-itself or is reset to nil")
+	c.Rule("R05.7", 500, "one critical section per lock and function")
 	c.Rule("R05.0", 500, "skeleton is analysable (evaluates, parses, type-checks)")
 
 	analysable := func(p *TPath) bool {
@@ -491,6 +502,7 @@ R05.5 (matryer) no user-supplied Func field and no other mock method is called w
 				c.OK("R05.1", "matryer", "", fmt.Sprintf("%d guarded accesses, %d acquires on path %s", acc, acq, p.Env()))
 			}
 			c.OK("R05.5", "matryer", "", p.Env())
+			c.OK("R05.7", "matryer", "", p.Env())
 			for i := 0; i < logw; i++ {
 				c.OK("R05.6", "matryer", "", p.Env())
 			}
